@@ -137,6 +137,8 @@ class Session:
         self.cap = min(len(script) + 3, 16)
         self.calls = []
         self.products = []
+        self.metas = []  # transport layer: the meta object of every successful answer (None for faults)
+        self.ignored = set()  # transport layer: statuses the operation asked the client to ignore
         self.last_r = 0
         self.rnd_stream = 0
 
@@ -242,6 +244,86 @@ class Session:
             raise tlc.MachineryError("unknown outcome kind %r" % (k,))
         self.products.append(prod)
         raise prod
+
+
+class _NotAFault(BaseException):
+    """HEAD answered with 404: the documented answer 'does not exist', not one of the fault classes of the property."""
+
+
+def _transport_request(session):
+    """Replacement for elastic_transport.Transport.perform_request under the REAL esrally.client RallySyncElasticsearch (transport
+    layer): answers from the session's script with a status and a body (the client itself turns a status into an exception) or
+    raises the scripted connection / transport error."""
+    import collections
+
+    import elastic_transport
+    import elasticsearch
+
+    # what Transport.perform_request returns (a named tuple; not exported by elastic_transport 8.4)
+    response = collections.namedtuple("TransportApiResponse", "meta body")
+
+    def perform_request(method, target, *, headers=None, body=None, **_kwargs):
+        if method == "GET" and target == "/":  # the client's product check, not an attempt of the operation
+            meta = elastic_transport.ApiResponseMeta(
+                status=200, http_version="1.1", headers=elastic_transport.HttpHeaders({"x-elastic-product": "Elasticsearch"}), duration=0.0,
+                node=elastic_transport.NodeConfig("https", "metrics.example.org", 9243),
+            )  # fmt: skip
+            return response(meta, {"version": {"number": "8.6.1", "build_flavor": "default"}, "tagline": "You Know, for Search"})
+        i = len(session.calls)
+        entry = session.script[i] if i < len(session.script) else ["ok", 0, [], 0, 0, ""]
+        k, code = entry[0], entry[1]
+        if k == "api" and i < session.cap:
+            if (method == "HEAD" and int(code) == 404) or int(code) in session.ignored:
+                raise _NotAFault()
+            shape = _shape(entry)
+            n = i + 1
+            session.calls.append({"o": {"k": k, "code": int(code), "items": sorted(entry[2]), "shape": shape}, "r": int(session.last_r), "p": 0, "ns": 0})
+            session.last_r = 0
+            b = api_body(shape, code, _api_token(code, n))
+            meta = _meta(int(code))
+            cls = elasticsearch.exceptions.HTTP_EXCEPTIONS.get(int(code), elasticsearch.ApiError)
+            session.products.append(cls(message=api_message(b), meta=meta, body=b))  # what a correct client raises (for 'names the cause')
+            session.metas.append(None)
+            return response(meta, b)
+        is_bulk = "_bulk" in target
+        try:
+            prod = session.invoke("bulk" if is_bulk else "other", (), {"operations": body} if is_bulk else {})
+        except BaseException:
+            session.metas.append(None)
+            raise
+        meta = _meta(200)
+        session.metas.append(meta)
+        out = prod.body if is_bulk else {"acknowledged": True, "attempt": i + 1}
+        return response(meta, None if method == "HEAD" else out)
+
+    return perform_request
+
+
+def real_client(session):
+    """The client the metrics store really uses (esrally.client.EsClientFactory.create()) over the scripted transport."""
+    from esrally.client import factory
+
+    es = factory.EsClientFactory(
+        hosts=[{"host": "metrics.example.org", "port": 9243}], client_options={"timeout": 120}, distribution_version="8.6.1", distribution_flavor="default"
+    ).create()
+    es.transport.perform_request = _transport_request(session)
+    return es
+
+
+def _recording_options(session):
+    """RallySyncElasticsearch.options wrapped: a status the OPERATION asks the client to ignore (delete: 404, create_index: 400) is an
+    answer for that operation, not a fault."""
+    from esrally.client import synchronous
+
+    original = synchronous.RallySyncElasticsearch.options
+
+    def options(self, **kwargs):
+        ign = kwargs.get("ignore_status")
+        if ign is not None and not (hasattr(ign, "__class__") and ign.__class__.__name__ == "DefaultType"):
+            session.ignored.update([ign] if isinstance(ign, int) else list(ign))
+        return original(self, **kwargs)
+
+    return mock.patch.object(synchronous.RallySyncElasticsearch, "options", options)
 
 
 def _scripted_function(session, name):
@@ -387,15 +469,20 @@ def execute(case):
     from esrally import exceptions, metrics
 
     session = Session(case["script"])
-    fake = FakeClient(session)
+    transport_layer = case.get("layer") == "transport"
+    fake = real_client(session) if transport_layer else FakeClient(session)
     es_client = metrics.EsClient(fake)
     kind = case["kind"]
     ndocs = case.get("ndocs", 1)
-    with mock.patch.object(time, "sleep", session.sleep), mock.patch.object(random, "random", session.random):
+    import contextlib
+
+    with mock.patch.object(time, "sleep", session.sleep), mock.patch.object(random, "random", session.random), (_recording_options(session) if transport_layer else contextlib.nullcontext()):
         try:
             res = ("returned", _call_operation(es_client, session, case["op"], kind, ndocs))
         except _Abort:
             res = ("aborted", None)
+        except _NotAFault:
+            return None
         except tlc.MachineryError:
             raise
         except BaseException as ex:  # pylint: disable=broad-except
@@ -404,7 +491,11 @@ def execute(case):
     detail = ""
     if res[0] == "returned":
         val = res[1]
-        if kind == "plain":
+        if kind == "plain" and transport_layer:
+            # the answer object the real client built carries the meta object of the attempt it belongs to
+            cands = [j for j, m in enumerate(session.metas) if m is not None and session.calls[j]["o"]["k"] == "ok" and getattr(val, "meta", None) is m]
+            st["of"] = -1 if not cands else (len(session.metas) if len(session.metas) - 1 in cands else cands[0] + 1)
+        elif kind == "plain":
             cands = [j for j, pr in enumerate(session.products) if session.calls[j]["o"]["k"] == "ok" and type(pr) is type(val) and (pr is val or pr == val)]
             st["of"] = -1 if not cands else (len(session.products) if len(session.products) - 1 in cands else cands[0] + 1)
         else:
@@ -647,7 +738,10 @@ def run_cases(cases, out, label, chunk=20000):
     index = {}
     t_start = time.time()
     for ci, case in enumerate(cases):
-        item, detail = execute(case)
+        res = execute(case)
+        if res is None:  # transport layer: a HEAD request answered 404 (an answer, not a fault)
+            continue
+        item, detail = res
         _count_situations(case)
         item["id"] = "%s-%s-%d" % (label, case["src"], ci)
         items.append(item)
@@ -750,6 +844,12 @@ def run(ctx, out):
     rnd_cases = random_cases(ctx.seed + 170, 3000 if quick else 60000, ops)
     # one validation run for the three groups (ids keep the group)
     items = run_cases(cover + sims + rnd_cases, out, "esr")
+    # ---- transport layer: the same scripts under the REAL client of the metrics store (esrally.client RallySyncElasticsearch created
+    # by EsClientFactory): the scripted transport answers with a status, the client decides what is an error
+    tl = [dict(c, layer="transport", src="transport-" + c["src"]) for c in edge_cover(ops, rnd) + random_cases(ctx.seed + 171, 1000 if quick else 20000, ops) if c["op"] != "guarded"]
+    tl_items = run_cases(tl, out, "tl")
+    out.extra["transport_layer"] = "%d executions of every public operation through the real esrally.client.RallySyncElasticsearch over a scripted transport (status + body answers, connection / transport errors raised)" % len(tl_items)
+    out.note("transport layer: %d executions" % len(tl_items))
     pick = next(i for i, c in enumerate(cover) if c["kind"] == "bulk" and len(c["script"]) >= 3)
     out.sample({"source": "edge-cover", "op": cover[pick]["op"], "script": cover[pick]["script"], "recorded": items[pick]})
     pick = next(i for i, c in enumerate(cover) if c["kind"] == "plain" and len(c["script"]) >= 2 and _shape(c["script"][0]) not in ("", "es"))
@@ -781,7 +881,11 @@ def run(ctx, out):
 
 def replay(ctx, case):
     _quiet()
-    item, detail = execute(case)
+    res = execute(case)
+    if res is None:
+        print("op=%s: HEAD answered 404 is an answer, not a fault" % case["op"])
+        return 0
+    item, detail = res
     item["id"] = "replay"
     v = tracecheck.validate("Guarded", "TraceGuarded", "TraceGuarded.cfg", [item], name="c17replay")
     print("op=%s kind=%s script=%s" % (case["op"], case["kind"], case["script"]))
